@@ -55,6 +55,8 @@ type interpreter struct {
 	regexes            map[*value]*regexHandle
 	sch                *sched
 	protoSeq           int
+	manualTimers       bool
+	pendingTimers      []*channel
 	protoMsgs          map[string]iface
 	nowHook            *value // harness clock cell (unix nanos), if the harness installed one
 	lastNow            value
